@@ -98,3 +98,49 @@ C11_JOBS.append(dict(
     claims="against callee contracts, any index: callee preconditions hold; pos monotone; success => pos' <= len; scanner state stays well-formed"))
 PROPS["C11"] = dict(
     level="other", jobs=C11_JOBS, trusted_base=COMMON_TRUST + MODEL_TRUST, assumptions=[], undecided=[], explanation="")
+
+
+# ===================================================================================== C14
+C14_UNITS = arch_units("avx2") + ["in_page_32", "is_eq_lt_32_cross_page", "is_eq_lt_32", "cmp_lt_32", "avx2.InlinedMemcmpEq", "avx2.InlinedMemcmp"]
+C14_SSE_UNITS = arch_units("sse") + ["sse.InlinedMemcmpEq", "sse.InlinedMemcmp"]
+UF = ["--arrays-uf-always"]
+OBS_MOVEMASK = [(r"arithmetic overflow on signed \+ in return_value__mm256_movemask_epi8", None)]
+def c14(id, harness, **kw):
+    d = dict(id="C14." + id, src="c14_memcmp.c", harness=harness, units=C14_UNITS, defs=["VEC_LEN=32"], arch="avx2", route="L", timeout=900)
+    d.update(kw)
+    return d
+C14_JOBS = [
+    c14("in_page_32", "h_in_page_32", function="in_page_32", replay="in_page_32",
+        claims="all page offsets of both pointers: guard true => both 32-byte windows stay inside their page objects"),
+    c14("in_page_32.sanitize", "h_in_page_32", function="in_page_32 (SONIC_USE_SANITIZE)", defs=["VEC_LEN=32", "SANITIZE_PATH"],
+        claims="sanitizer build: the guard is constantly false, so the over-reading path is never taken"),
+    c14("is_eq_lt_32", "h_is_eq_lt_32", function="is_eq_lt_32", unwind=33, flags=UF, replay="memcmp_short",
+        claims="all 1<=s<32, all contents, all offsets in two-page objects: true iff the first s bytes agree; no read outside the page objects"),
+    c14("is_eq_lt_32.sanitize", "h_is_eq_lt_32", function="is_eq_lt_32 (SONIC_USE_SANITIZE)", defs=["VEC_LEN=32", "SANITIZE_PATH"], unwind=33, flags=UF,
+        claims="sanitizer build: same equivalence through the cross-page fallback only"),
+    c14("is_eq_lt_32_cross_page", "h_is_eq_lt_32_cross_page", function="is_eq_lt_32_cross_page", unwind=33, flags=UF,
+        claims="fallback: true iff the first s bytes agree; reads only [p, p+s)"),
+    c14("cmp_lt_32", "h_cmp_lt_32", function="cmp_lt_32", unwind=33, flags=UF, replay="memcmp_short",
+        claims="all 1<=s<32: sign equals memcmp; no read outside the page objects"),
+    c14("cmp_lt_32.sanitize", "h_cmp_lt_32", function="cmp_lt_32 (SONIC_USE_SANITIZE)", defs=["VEC_LEN=32", "SANITIZE_PATH"], unwind=33, flags=UF,
+        claims="sanitizer build: sign equals memcmp via libc memcmp only"),
+    c14("InlinedMemcmpEq.long", "h_InlinedMemcmpEq", function="InlinedMemcmpEq", defs=["VEC_LEN=32", "LONG_KEYS"], route="U", enforce="InlinedMemcmpEq",
+        replace=["is_eq_lt_32"], loop_contracts=True, expect_loops=1,
+        claims="any s>=32 on heap blocks of exactly s bytes: no over-read; true => bytes equal at every index (ghost); ranges built equal => true"),
+    c14("InlinedMemcmp.long", "h_InlinedMemcmp", function="InlinedMemcmp", defs=["VEC_LEN=32", "LONG_KEYS"], route="U", enforce="InlinedMemcmp",
+        replace=["cmp_lt_32"], loop_contracts=True, expect_loops=1, solver="cadical",
+        claims="any s>=32 on exact-size blocks: no over-read; 0 => bytes equal at every index (converse: bounded sign job)"),
+    c14("InlinedMemcmp.sign", "h_InlinedMemcmp_sign", function="InlinedMemcmp", defs=["VEC_LEN=32", "LONG_KEYS", "SMAX=159"], route="B(32<=s<=159)", bound="32 <= s <= 159",
+        cbmc_unwindset="h_InlinedMemcmp_sign.0:160,h_InlinedMemcmp_sign.1:160,InlinedMemcmp.0:5", unwind=34, replay="memcmp_long",
+        claims="bounded: sign equals memcmp for every length up to 4 blocks + 31 and every mismatch position"),
+    c14("InlinedMemcmpEq.short", "h_InlinedMemcmpEq_short", function="InlinedMemcmpEq (s<32 dispatch)", defs=["VEC_LEN=32", "SHORT_DISPATCH"], replace=["is_eq_lt_32"], flags=UF, cbmc_unwindset="InlinedMemcmpEq.0:2",
+        claims="s==0 => true; 1<=s<32 => exactly is_eq_lt_32(a,b,s) (kernel as uninterpreted function; its own proof is C14.is_eq_lt_32)"),
+    c14("InlinedMemcmp.short", "h_InlinedMemcmp_short", function="InlinedMemcmp (s<32 dispatch)", defs=["VEC_LEN=32", "SHORT_DISPATCH"], replace=["cmp_lt_32"], flags=UF, cbmc_unwindset="InlinedMemcmp.0:2",
+        claims="s==0 => 0; 1<=s<32 => exactly cmp_lt_32(l,r,s)"),
+    c14("movemask.observe", "h_is_eq_lt_32", function="is_eq_lt_32", defs=["VEC_LEN=32", "OBSERVE_ALL"], route="O", unwind=33, flags=UF, observe=OBS_MOVEMASK,
+        claims="observation only: movemask(...) + 1 is int arithmetic that wraps when lanes 0..30 agree and lane 31 differs"),
+    dict(id="C14.sse.forwarders", src="c14_memcmp.c", harness="h_sse_forwarders", units=C14_SSE_UNITS, defs=["VEC_LEN=16"], arch="sse", route="L",
+         function="sse::InlinedMemcmpEq / sse::InlinedMemcmp", replace=["memcmp"],
+         claims="the sse bodies are memcmp(a,b,s)==0 and memcmp(l,r,s) on exactly s bytes (libc memcmp trusted, uninterpreted)"),
+]
+PROPS["C14"] = dict(level="other", jobs=C14_JOBS, trusted_base=COMMON_TRUST + MODEL_TRUST, assumptions=[], undecided=[], explanation="")
